@@ -261,3 +261,59 @@ v2c_short_varbind!(v2c_varbind_empty, 0, []);
 v2c_short_varbind!(v2c_varbind_1, 1, [kani::any()]);
 //@ C01 quick timeout=900 | v2c GetResponse whose only varbind holds TWO arbitrary octets: rejected, no panic
 v2c_short_varbind!(v2c_varbind_2, 2, [kani::any(), kani::any()]);
+
+/// V3_GET with the msgFlags OCTET STRING replaced by one of `k` octets (content `fill`), enclosing lengths adjusted.
+pub const fn v3_with_flags<const M: usize>(k: usize, fill: u8) -> [u8; M] {
+    let mut out = [0u8; M];
+    let mut i = 0;
+    // up to and including the msgFlags tag (index 16)
+    while i < 17 {
+        out[i] = V3_GET[i];
+        i += 1;
+    }
+    out[1] = (V3_GET[1] as usize + k - 1) as u8;
+    out[6] = (V3_GET[6] as usize + k - 1) as u8;
+    out[17] = k as u8;
+    let mut j = 0;
+    while j < k {
+        out[18 + j] = fill;
+        j += 1;
+    }
+    // the rest of the message after the original 1-octet content (index 19..)
+    let mut s = 19;
+    while s < 66 {
+        out[18 + k + s - 19] = V3_GET[s];
+        s += 1;
+    }
+    out
+}
+
+macro_rules! v3_flags_len {
+    ($name:ident, $k:expr, $m:expr) => {
+        std_stubs_harness! {
+        fn $name() {
+            const F: [u8; $m] = v3_with_flags::<$m>($k, 0);
+            let mut b = F;
+            let mut j = 0;
+            while j < $k {
+                b[18 + j] = kani::any();
+                j += 1;
+            }
+            let r = SnmpV3Message::try_from(&b[..]);
+            if $k != 1 {
+                assert!(r.is_err(), "msgflags_of_wrong_size_accepted");
+            } else {
+                assert!(r.is_ok(), "well_formed_v3_rejected");
+            }
+            kani::cover!(true, "returned");
+            core::mem::forget(r);
+        }
+        }
+    };
+}
+//@ C01 quick timeout=900 | v3 message whose msgFlags OCTET STRING is EMPTY: rejected, no panic
+v3_flags_len!(v3_flags_len_0, 0, 65);
+//@ C01 thorough timeout=5400 optional | v3 message with a 1-octet msgFlags of any value: accepted (control)
+v3_flags_len!(v3_flags_len_1, 1, 66);
+//@ C01 thorough timeout=5400 optional | v3 message whose msgFlags has 2 arbitrary octets: rejected
+v3_flags_len!(v3_flags_len_2, 2, 67);
